@@ -37,7 +37,7 @@ type Scenario struct {
 	Data      *DataView
 }
 
-const numUsers = 8   // users 0..5 are active, 6 and 7 never own anything
+const numUsers = 8 // users 0..5 are active, 6 and 7 never own anything
 const activeUsers = 6
 
 type classInfo struct {
